@@ -1,6 +1,12 @@
 """Field types of the typed heap (type invariants: assumed when a field is read, proved when it
-is written) and list / dict kinds."""
+is written) and list / dict kinds.  Derived from the __init__ methods and every store site in
+/repo/ciw; a store that does not fit its declared type is a failed `type` obligation."""
 from pyvc.types import parse as T
+
+NODE = "obj:Node"                       # Node, ExactNode, PSNode
+ANYNODE = "obj:ArrivalNode|Node|ExitNode"
+SERVICE_OR_EXIT = "obj:Node|ExitNode"
+SERVTIME = "date || str"                # False | number | 'resume' / 'restart' / 'resample' / 'reroute'
 
 
 def F(spec, cls, **fields):
@@ -12,3 +18,130 @@ def declare(spec):
     K = spec.kinds
     K["Any"] = T("val")
     K["Local"] = None
+    # ---- list kinds: element types
+    K["IndQ"] = T("obj:Individual")          # one priority line of a node
+    K["IndOuter"] = T("list:IndQ")           # Node.individuals
+    K["Servers"] = T("obj:Server")
+    K["BlockedQ"] = T("tup2:int,int")        # (node id, individual id)
+    K["Interrupted"] = T("obj:Individual")
+    K["ExitList"] = T("obj:Individual")
+    K["Records"] = T("rec")
+    K["NumList"] = T("num")
+    K["IntList"] = T("int")
+    K["StrList"] = T("str")
+    K["TNodes"] = T(NODE)
+    K["Nodes"] = T(ANYNODE)
+    K["ActiveNodes"] = T("obj:ArrivalNode|Node")
+    K["Centres"] = T("obj:ServiceCentre")
+    K["DistList"] = T("opt:obj:Distribution")
+    K["FnList"] = T("opt:fn")
+    K["Route"] = T("val")
+    K["History"] = T("list:HistEntry")
+    K["HistEntry"] = T("val")
+    K["NodeRouters"] = T("obj:NodeRouting")
+    K["NodeTypes"] = T("fn")
+    K["IntListState"] = T("int")
+    K["IntMatrix"] = T("list:IntListState")
+    # ---- dict kinds: (key type, value type)
+    K["PNE"] = (T("str"), T("tup2:val,num"))           # possible_next_events
+    K["Baulk"] = (T("str"), T("opt:fn"))
+    K["ClassChange"] = (T("str"), T("dict:ClassChangeRow"))
+    K["ClassChangeRow"] = (T("str"), T("num"))
+    K["PrioMap"] = (T("str"), T("int"))
+    K["CClasses"] = (T("str"), T("obj:CustomerClass"))
+    K["CCTD"] = (T("str"), T("opt:obj:Distribution"))
+    K["DistByNode"] = (T("int"), T("dict:DistByClass"))
+    K["DistByClass"] = (T("str"), T("opt:obj:Distribution"))
+    K["CountByClass"] = (T("str"), T("int"))
+    K["EvDates"] = (T("int"), T("dict:EvDatesRow"))
+    K["EvDatesRow"] = (T("str"), T("date"))
+    K["Routers"] = (T("str"), T("obj:NetworkRouting"))
+    K["Times"] = (T("val"), T("num"))
+    K["ClassOrdering"] = (T("str"), T("int"))
+
+    F(spec, "Simulation",
+      current_time="num", network="obj:Network", NodeTypes="list:NodeTypes", ArrivalNodeType="fn",
+      ExitNodeType="fn", IndividualType="fnconst:Individual", ServerType="fnconst:Server", name="str",
+      deadlock_detector="obj:NoDetection", inter_arrival_times="dict:DistByNode",
+      service_times="dict:DistByNode", batch_sizes="dict:DistByNode", number_of_priority_classes="int",
+      transitive_nodes="list:TNodes", nodes="list:Nodes", active_nodes="list:ActiveNodes",
+      routers="dict:Routers", statetracker="obj:StateTracker", times_dictionary="dict:Times",
+      times_to_deadlock="dict:Times", unchecked_blockage="bool", progress_bar="val", all_records="val")
+
+    F(spec, "Node",
+      simulation="obj:Simulation", server_priority_function="opt:fn", service_discipline="fn",
+      next_event_type="opt:str", schedule="opt:obj:Schedule", c="intinf", slotted="bool",
+      next_event_date="num", next_shift_change="num", node_capacity="intinf",
+      class_change="opt:dict:ClassChange", individuals="list:IndOuter", number_of_individuals="int",
+      number_in_service="int", id_number="int", baulking_functions="dict:Baulk", overtime="list:NumList",
+      blocked_queue="list:BlockedQ", len_blocked_queue="int", servers="list:Servers", highest_id="intinf",
+      priority_preempt="orfalse:str", interrupted_individuals="list:Interrupted",
+      number_interrupted_individuals="int", all_servers_total="list:NumList", all_servers_busy="list:NumList",
+      reneging="bool", dynamic_classes="bool", next_class_change_date="num", next_individual="val",
+      next_class_change_ind="opt:obj:Individual", possible_next_events="dict:PNE",
+      server_utilisation="opt:num")
+    F(spec, "PSNode", last_occupancy="int", ps_threshold="int", ps_capacity="intinf", date_last_update="num")
+
+    F(spec, "Individual",
+      arrival_date="date", service_start_date="date", service_time=SERVTIME, service_end_date="date",
+      exit_date="date", id_number="int", data_records="list:Records", customer_class="str",
+      previous_class="str", priority_class="int", prev_priority_class="int", original_class="str",
+      is_blocked="bool", server="bool || obj:Server", queue_size_at_arrival="date",
+      queue_size_at_departure="date", destination="date", interrupted="bool", node="date", simulation="val",
+      reneging_date="num", class_change_date="num", next_class="str", time_left="num",
+      original_service_time=SERVTIME, original_service_start_date="date", with_server="bool",
+      date_last_update="num", route="list:Route", starting_node="int")
+
+    F(spec, "Server",
+      node=NODE, id_number="int", cust="orfalse:obj:Individual", busy="bool", offduty="bool", all_time="val",
+      start_date="num", busy_time="num", total_time="date", shift_end="date", next_end_service_date="num")
+
+    F(spec, "ArrivalNode",
+      simulation="obj:Simulation", number_of_individuals="int", number_of_individuals_per_class="dict:CountByClass",
+      number_accepted_individuals="int", number_accepted_individuals_per_class="dict:CountByClass",
+      system_capacity="intinf", event_dates_dict="dict:EvDates", next_node="opt:int", next_class="opt:str",
+      next_event_date="num")
+
+    F(spec, "ExitNode",
+      all_individuals="list:ExitList", number_of_individuals="int", number_of_completed_individuals="int",
+      id_number="int", next_event_date="num", node_capacity="intinf")
+
+    F(spec, "Schedule",
+      schedule_type="str", shift_end_dates="list:NumList", numbers_of_servers="list:IntList",
+      preemption="orfalse:str", cyclelength="num", offset="num", c="int", next_shift_change_date="num",
+      next_c="int", schedule_generator="gen:Sched")
+    F(spec, "Slotted",
+      slots="list:NumList", slot_sizes="list:IntList", next_slot_sizes="list:IntList", capacitated="bool",
+      next_slot_date="num", slot_size="int")
+
+    F(spec, "Network",
+      service_centres="list:Centres", customer_classes="dict:CClasses", number_of_nodes="int",
+      number_of_classes="int", customer_class_names="list:StrList", number_of_priority_classes="int",
+      priority_class_mapping="dict:PrioMap", system_capacity="intinf")
+    F(spec, "ServiceCentre",
+      number_of_servers="intinf || obj:Schedule", queueing_capacity="intinf",
+      class_change_matrix="opt:dict:ClassChange", priority_preempt="orfalse:str", ps_threshold="int",
+      server_priority_function="opt:fn", service_discipline="fn", class_change_time="bool", reneging="bool")
+    F(spec, "CustomerClass",
+      arrival_distributions="list:DistList", service_distributions="list:DistList",
+      batching_distributions="list:DistList", routing="obj:NetworkRouting", priority_class="int",
+      baulking_functions="list:FnList", reneging_time_distributions="list:DistList",
+      class_change_time_distributions="dict:CCTD")
+
+    F(spec, "StateTracker", simulation="obj:Simulation", state="val", history="list:History")
+    F(spec, "MatrixBlocking", increment="int")
+    F(spec, "NodePopulationSubset", observed_nodes="list:IntList")
+    F(spec, "GroupedNodePopulation", observed_nodes="list:IntList", groups="list:Any")
+    F(spec, "NodeClassMatrix", class_ordering="val")
+
+    F(spec, "NetworkRouting", routers="list:NodeRouters", simulation="obj:Simulation")
+    F(spec, "ProcessBased", route_function="fn")
+    F(spec, "FlexibleProcessBased", rule="str", choice="str")
+    F(spec, "NodeRouting", simulation="obj:Simulation", node="opt:" + NODE)
+    F(spec, "Probabilistic", destinations="list:IntList", probs="list:NumList")
+    F(spec, "Direct", to="int")
+    F(spec, "JoinShortestQueue", destinations="list:IntList", tie_break="str")
+    F(spec, "Cycle", cycle="list:IntList", generator="gen:Cycle")
+
+    F(spec, "Distribution", simulation="val")
+    F(spec, "StateDigraph", statedigraph="val")
